@@ -22,6 +22,17 @@ pub fn gen_clients(r: &mut Rng, n: usize, with_invalid: bool, max_reqs: usize) -
     if r.coin() {
         init.push(("static".to_string(), 9));
     }
+    // in a quarter of the scenarios some requests address a directory or a path below a file
+    let odd_paths = r.below(4) == 0;
+    // ("blocker" is a regular file no request addresses directly, so no in-flight Put ever
+    // creates a directory there: early parent-directory creation by a concurrent, not yet
+    // committed Put is outside what the CAS statement talks about)
+    if odd_paths {
+        if !init.iter().any(|(p, _)| p == "dir/k2") {
+            init.push(("dir/k2".to_string(), 1));
+        }
+        init.push(("blocker".to_string(), 3));
+    }
     let mut clients = Vec::new();
     for c in 0..n {
         let nreq = r.urange(2, max_reqs);
@@ -30,10 +41,12 @@ pub fn gen_clients(r: &mut Rng, n: usize, with_invalid: bool, max_reqs: usize) -
             reqs.push(Req::Hello);
         }
         for _ in 0..nreq {
-            let path = if r.below(5) == 0 {
-                format!("priv{c}")
-            } else {
-                r.pick(&shared).clone()
+            let path = match r.below(40) {
+                0..=7 => format!("priv{c}"),
+                // a path that is a DIRECTORY on the hub, and one below a regular FILE
+                8 if odd_paths => "dir".to_string(),
+                9 if odd_paths => "blocker/below".to_string(),
+                _ => r.pick(&shared).clone(),
             };
             let expected = match r.below(10) {
                 0 | 1 => Exp::None,
